@@ -74,6 +74,10 @@ type C14Payload struct {
 	// only entry gives an unconvertible value to an option that the judged
 	// document sets properly (the rejected entry must leave nothing behind).
 	PriorBad BStr `json:"prior_bad,omitempty"`
+	// PriorArgv: before the read, the same parser has parsed this command line,
+	// which selects a command (the usual order: arguments first, for --config,
+	// then the file).
+	PriorArgv []BStr `json:"prior_argv,omitempty"`
 	// Stream (ParseFile only): the path is a pipe or device, whose size is not known beforehand
 	Stream     bool `json:"stream,omitempty"`
 	Stores     []Op `json:"stores,omitempty"`
@@ -638,6 +642,18 @@ func (propC14) Gen(r *Rng, idx int, tier string) *Scenario {
 		p.PriorLines = cr.Range(1, 9)
 	}
 	p.Stream = p.ViaFile && r.Fork("stream").Chance(1, 5)
+	if ar := r.Fork("priorargv"); ar.Chance(1, 5) && len(sc.Decl.Commands) > 0 && !p.LateIgnore {
+		// a command chain down to where no further command is required
+		cs := sc.Decl.Commands
+		for len(cs) > 0 {
+			c := cs[ar.Intn(len(cs))]
+			p.PriorArgv = append(p.PriorArgv, BStr(c.Name))
+			if c.SubOptional && ar.Bool() {
+				break
+			}
+			cs = c.Commands
+		}
+	}
 	if br := r.Fork("priorbad"); br.Chance(1, 6) && p.Source == "structured" && !p.LateIgnore && p.PriorLines == 0 {
 		var cands []C14Entry
 		for _, e := range p.Entries {
@@ -683,7 +699,7 @@ func (p *C14Payload) currentText() string {
 	return ""
 }
 
-var arbAlphabet = []string{"[", "]", "=", "\"", "\\", ":", "\r", "\n", "\n", "\x00", "\xff", "\xc3", ";", "#", " ", "\t", "a", "b", "1", "-", ".", "é",
+var arbAlphabet = []string{"[", "]", "=", "\"", "\\", ":", "'", "`", "%", "$", "\r", "\n", "\n", "\x00", "\xff", "\xc3", ";", "#", " ", "\t", "a", "b", "1", "-", ".", "é",
 	"\xef", "\xef\xbb", "\xef\xbb\xbf", "\xfe\xff", "\x80", "\xbf", "\xe2\x80\xa8", "\u00a0", "\x1a", "\x0b", "\x0c", "\x85", "\x7f"}
 
 func genArbitraryIni(r *Rng, d *DeclSpec) string {
@@ -703,7 +719,7 @@ func genArbitraryIni(r *Rng, d *DeclSpec) string {
 		case 1, 2:
 			if len(ois) > 0 {
 				oi := ois[r.Intn(len(ois))]
-				b.WriteString(r.Pick(iniKeySpellings(oi)) + r.Pick([]string{"=", " = ", "=\"", " = \"x\"", "= k:", " = k:\"", "=:", " = :", "= \"\""}) + r.Pick([]string{"", "1", "x", "\n", "k:v\n", "\"\n", ":\n"}))
+				b.WriteString(r.Pick(iniKeySpellings(oi)) + r.Pick([]string{"=", " = ", "=\"", " = \"x\"", "= k:", " = k:\"", "=:", " = :", "= \"\""}) + r.Pick([]string{"", "1", "x", "\n", "k:v\n", "\"\n", ":\n", "'\n", "''\n", "'x\n", "k:'\n"}))
 			}
 		case 3:
 			b.WriteString(strings.Repeat(r.Pick(arbAlphabet), r.Range(1, 5000)))
@@ -876,6 +892,9 @@ func c14Read(sc *Scenario, data string, chunks []simrt.ReadStep, rest int, viaFi
 		s2.Decl = &d2
 		op.UseKept = true
 		s2.Ops = []Op{{Kind: "newini"}, {Kind: "setopts", IniOpts: sc.Decl.Options}, op}
+	}
+	if sc.C14 != nil && len(sc.C14.PriorArgv) > 0 && !sc.C14.LateIgnore {
+		s2.Ops = append([]Op{{Kind: "parse", Argv: sc.C14.PriorArgv}}, s2.Ops...)
 	}
 	o := Execute(&s2, nil)
 	return o, lastOp(o)
@@ -1258,6 +1277,13 @@ func (propC14) Reductions(sc *Scenario) []func(*Scenario) bool {
 				return false
 			}
 			s.C14.PriorBad = ""
+			return true
+		},
+		func(s *Scenario) bool {
+			if len(s.C14.PriorArgv) == 0 {
+				return false
+			}
+			s.C14.PriorArgv = nil
 			return true
 		},
 		func(s *Scenario) bool { s.C14.TailNoise = nil; return true },
